@@ -36,6 +36,37 @@ def native_replay(path, timeout=180):
     return {"reproduced": False, "error": "no replay output", "stderr": p.stderr[-2000:]}
 
 
+def native_differential(prop, cfg, seed, trials=400):
+    """thorough tier: the SAME contract text evaluated natively (CPython, real code) on seeded random inputs - every
+    clause must hold on the tree; a failing clause here with all VCs discharged would mean the engine is unsound"""
+    env = dict(os.environ)
+    env.update(PYVC_NATIVE="1", PYTHONPATH=HERE, VERIF_SEED=str(seed))
+    out = []
+    t0 = time.time()
+    try:
+        p = subprocess.run([NATIVE_PY, "-m", "pyvc.replay", "--fuzz", ",".join(cfg["modules"]), "@" + prop, str(trials)], cwd=HERE, env=env,
+                           capture_output=True, text=True, timeout=1500)
+        doc = None
+        for line in reversed(p.stdout.strip().splitlines()):
+            try:
+                doc = json.loads(line)
+                break
+            except Exception:
+                continue
+    except subprocess.TimeoutExpired:
+        doc = None
+    dt = time.time() - t0
+    if doc is None:
+        return [{"name": "cpython_differential", "verdict": "unknown", "time_s": dt, "backend": "cpython", "kind": "differential",
+                 "detail": "native differential did not finish"}]
+    ob = {"name": "cpython_differential[%d runs, %d clauses evaluated natively]" % (doc["runs"], doc["clauses"]),
+          "verdict": "discharged" if not doc["failed"] and not doc["errors"] else "refuted", "time_s": dt, "backend": "cpython", "kind": "differential"}
+    if doc["failed"] or doc["errors"]:
+        ob["model"] = {"failed_clauses": doc["failed"], "errors": doc["errors"][:2]}
+        ob["native"] = {"reproduced": bool(doc["failed"]), "observed": doc["failed"]}
+    return [ob]
+
+
 def second_opinion(smt2, timeout_s):
     """z3 left it unknown: ask cvc5 and z3 4.8.12 on the SMT-LIB text"""
     import tempfile
@@ -79,6 +110,7 @@ def main(argv=None):
         a.tier = "quick"
     seed = int(os.environ.get("VERIF_SEED", "0") or 0)
     t0 = time.time()
+    os.environ["PYVC_TIER"] = a.tier          # contracts widen their finite case sets / bounds in the thorough tier
     import contracts
     from pyvc import runner, api
     cfg = contracts.PROPERTIES.get(a.prop)
@@ -96,6 +128,8 @@ def main(argv=None):
     extra = []
     for fn in cfg.get("extra", []):
         extra.extend(fn(a.tier, seed))
+    if a.tier == "thorough" and not a.only:
+        extra.extend(native_differential(a.prop, cfg, seed))
     return finish(a, cfg, hs, results, extra, seed, t0)
 
 
